@@ -163,6 +163,21 @@ theorem tagEpochs_eq (next : ℕ → α → α) (lr0 : α) (e : ℕ) (epochs : L
     funext b
     rw [Nat.add_assoc, Nat.add_comm 1 i]
 
+/-- the rate left in the optimizer after the epoch loop: one scheduler step per entered epoch, whatever the epochs contain -/
+theorem lrEnd_eq (next : ℕ → α → α) (lr0 : α) (e : ℕ) (epochs : List (List β)) :
+    lrEnd next (lrAfter next lr0 e) e epochs = lrAfter next lr0 (e + epochs.length) := by
+  induction epochs generalizing e with
+  | nil => rfl
+  | cons bs rest ih =>
+    have h := ih (e + 1)
+    simp only [lrAfter] at h
+    rw [lrEnd, h, List.length_cons, Nat.add_assoc, Nat.add_comm 1]
+
+theorem schedSteps_eq (epochs : List (List β)) : schedSteps epochs = epochs.length := by
+  induction epochs with
+  | nil => rfl
+  | cons bs rest ih => simp [schedSteps, ih]
+
 end sched
 
 /-- `StepLR` closed form: after `e` scheduler steps the rate is `lr0 · gamma ^ ⌊e / step_size⌋` -/
